@@ -73,6 +73,9 @@ struct GroupCfg {
     nctx_reg: usize,
     ndisc: usize,
     reg: bool,
+    /// how many user connect / disconnect callbacks are registered on the builder BEFORE
+    /// `with_peer_registry` (hooks run in registration order)
+    regpos: usize,
     cap: usize,
     /// graceful-drain groups: 'c' = long drain timeout (connections wind down on the cancelled token),
     /// 'a' = zero drain timeout (stragglers are aborted); '-' otherwise
@@ -80,10 +83,18 @@ struct GroupCfg {
 }
 impl GroupCfg {
     fn line(&self) -> String {
-        format!("group {} {} {} {} {} {} {} {} {}", self.g, self.entry.name(), self.nconn, self.nctx, self.ndisc, self.reg as u8, self.cap, self.mode, self.nctx_reg)
+        format!("group {} {} {} {} {} {} {} {} {} {}", self.g, self.entry.name(), self.nconn, self.nctx, self.ndisc, self.reg as u8, self.cap, self.mode, self.nctx_reg, self.regpos)
     }
     fn hs(&self) -> bool {
         self.nctx > 0
+    }
+    /// user connect callbacks `u < reg_c()` run before the registry's insert
+    fn reg_c(&self) -> usize {
+        self.regpos.min(self.nconn)
+    }
+    /// user disconnect callbacks `u < reg_d()` run before the registry's remove
+    fn reg_d(&self) -> usize {
+        self.regpos.min(self.ndisc)
     }
 }
 
@@ -117,7 +128,7 @@ fn cancel_cause(cfg: &GroupCfg, cause: &str) -> bool {
 fn valid(entry: Entry, mode: char, phase: &str, cause: &str) -> bool {
     match cause {
         "close" | "drop" | "proto" | "protog" | "malformed" | "malformeds" | "malformedl" => true,
-        "hpanic" => matches!(phase, "idle" | "inline" | "parked"),
+        "hpanic" => matches!(phase, "idle" | "inline" | "parked" | "parkedfut"),
         "cpanic" => phase == "connecting",
         "cancel" => match entry {
             Entry::Drain => mode == 'c',
@@ -228,6 +239,10 @@ impl Shared {
         let reg = self.registry.as_ref().unwrap();
         reg.get(PeerId(id)).is_none() && (0..self.n_user_connect()).all(|u| reg.get_by(Self::key(id, u).as_str()).is_none()) && reg.aliases_for(PeerId(id)).is_empty()
     }
+    /// fully present: the handle and every alias a connect callback registered (those that ran after the insert)
+    fn registry_full(&self, id: u64) -> bool {
+        self.registry_present(id, None) && (self.cfg.reg_c()..self.cfg.nconn + self.cfg.nctx).all(|u| self.registry_present(id, Some(u)))
+    }
 
     /// user connect callback `u` (plain ones first, then the handshake-aware ones)
     fn on_connect(&self, peer: &PeerHandle, u: usize) {
@@ -286,7 +301,17 @@ impl Shared {
             }
             None => "-",
         };
-        let p = if self.registry.is_some() { if self.registry_gone(id.0) { "a" } else { "p" } } else { "-" };
+        let p = if self.registry.is_some() {
+            if self.registry_gone(id.0) {
+                "a"
+            } else if self.registry_full(id.0) {
+                "p"
+            } else {
+                "x"
+            }
+        } else {
+            "-"
+        };
         rec.trace.lock().unwrap().push(format!("d{}:{}:{}", u, x, p));
         if u + 1 == self.cfg.ndisc {
             let _ = rec.ev_tx.send(Evt::Ended);
@@ -299,7 +324,7 @@ fn rec_of_ctx(sh: &Shared, ctx: &CallContext) -> Option<Arc<ConnRec>> {
 }
 
 fn make_router(sh: &Arc<Shared>) -> Router {
-    let (s1, s2, s3) = (sh.clone(), sh.clone(), sh.clone());
+    let (s1, s2, s3, s4) = (sh.clone(), sh.clone(), sh.clone(), sh.clone());
     Router::new()
         .with_json("/echo", |v: Value| Ok(v))
         .with_json("/panic", |_v: Value| -> Result<Value, (ErrorCode, String)> { panic!("scripted inline handler panic") })
@@ -338,6 +363,24 @@ fn make_router(sh: &Arc<Shared>) -> Router {
             let _ = rec.ev_tx.send(Evt::ParkDone);
             Ok(json!("park"))
         })
+        .with_json_ctx_blocking("/parkfut", move |ctx: &CallContext, _v: Value| {
+            // parked on the `cancelled()` FUTURE (not polling the flag): must be woken when the connection ends.
+            // The timer arm is polled first, so once it fires the verdict is "not woken" even though a fresh poll
+            // of `cancelled()` would now be ready.
+            let Some(rec) = rec_of_ctx(&s4, ctx) else { return Ok(json!("unknown-peer")) };
+            let _ = rec.ev_tx.send(Evt::Parked);
+            let fut = ctx.cancelled();
+            let woke = tokio::runtime::Handle::current().block_on(async move {
+                tokio::select! {
+                    biased;
+                    _ = tokio::time::sleep(WD * 3) => false,
+                    _ = fut => true,
+                }
+            });
+            *rec.park.lock().unwrap() = Some(woke && ctx.is_cancelled());
+            let _ = rec.ev_tx.send(Evt::ParkDone);
+            Ok(json!("parkfut"))
+        })
         .with_json_ctx("/big", move |ctx: &CallContext, v: Value| {
             let size = v.get("size").and_then(|s| s.as_u64()).unwrap_or(1) as usize;
             if let Some(rec) = rec_of_ctx(&s3, ctx) {
@@ -351,11 +394,19 @@ fn make_router(sh: &Arc<Shared>) -> Router {
 fn build_server(sh: &Arc<Shared>) -> WebSocketServer {
     let cfg = &sh.cfg;
     let mut server = WebSocketServer::new(make_router(sh)).with_outbound_capacity(cfg.cap);
+    // hooks run in registration order: `regpos` user callbacks of each kind come before the registry's own
+    for u in 0..cfg.reg_c() {
+        let s = sh.clone();
+        server = server.on_peer_connect(move |peer: PeerHandle| s.on_connect(&peer, u));
+    }
+    for u in 0..cfg.reg_d() {
+        let s = sh.clone();
+        server = server.on_peer_disconnect(move |id: PeerId| s.on_disconnect(id, u));
+    }
     if let Some(reg) = &sh.registry {
-        // registered first: its insert is connect hook 0 and its remove is disconnect hook 0
         server = server.with_peer_registry(reg.clone());
     }
-    for u in 0..cfg.nconn {
+    for u in cfg.reg_c()..cfg.nconn {
         let s = sh.clone();
         server = server.on_peer_connect(move |peer: PeerHandle| s.on_connect(&peer, u));
     }
@@ -364,7 +415,7 @@ fn build_server(sh: &Arc<Shared>) -> WebSocketServer {
         let u = cfg.nconn + j;
         server = server.on_peer_connect_with_handshake(move |peer: &PeerHandle, _hs: &HandshakeContext| s.on_connect(peer, u));
     }
-    for u in 0..cfg.ndisc {
+    for u in cfg.reg_d()..cfg.ndisc {
         let s = sh.clone();
         server = server.on_peer_disconnect(move |id: PeerId| s.on_disconnect(id, u));
     }
@@ -438,6 +489,8 @@ struct ConnResult {
     problems: Vec<(String, String)>,
     notes: Vec<String>,
     accepted: bool,
+    /// what the parked handler reported by the time the connection was over (+ watchdog)
+    park: Option<bool>,
 }
 
 fn classify(b: &[u8]) -> String {
@@ -670,6 +723,12 @@ impl Group {
                     return Err("inline-handler-not-entered".into());
                 }
             }
+            "parkedfut" => {
+                ws.send(request(2, "/parkfut", &json!(null), false)).await.map_err(|e| format!("send-parkfut {e}"))?;
+                if !wait_evt(ev_rx, |e| matches!(e, Evt::Parked)).await {
+                    return Err("parkfut-handler-not-entered".into());
+                }
+            }
             "parked" => {
                 ws.send(request(2, "/park", &json!(null), false)).await.map_err(|e| format!("send-park {e}"))?;
                 if !wait_evt(ev_rx, |e| matches!(e, Evt::Parked)).await {
@@ -702,7 +761,7 @@ impl Group {
             _ => {}
         }
         if self.sh.registry.is_some() && phase != "connecting" {
-            res.live = if self.sh.registry_present(id, None) && (0..cfg.nconn + cfg.nctx).all(|u| self.sh.registry_present(id, Some(u))) { "p".into() } else { "a".into() };
+            res.live = if self.sh.registry_full(id) { "p".into() } else { "a".into() };
         }
 
         // ---- the strike: all connections of the group at once ----
@@ -782,11 +841,20 @@ impl Group {
         if !ended && !wait_evt(ev_rx, |e| matches!(e, Evt::Ended)).await {
             res.problems.push(("lifecycle.disconnect.missing".into(), format!("last disconnect callback not invoked within {:?} after the connection ended ({} / {})", WD, scen.phase, scen.cause)));
         }
-        if phase == "parked" {
+        if phase == "parked" || phase == "parkedfut" {
             rec.park_gate.open();
-            if !wait_evt(ev_rx, |e| matches!(e, Evt::ParkDone)).await {
+            // the handler's verdict is the observable (its ParkDone event may already have been consumed: a handler
+            // waiting on `cancelled()` finishes before the disconnect callbacks do)
+            let t0 = Instant::now();
+            while rec.park.lock().unwrap().is_none() && t0.elapsed() < WD {
+                tokio::time::sleep(Duration::from_millis(1)).await;
+            }
+            let verdict = *rec.park.lock().unwrap();
+            if verdict.is_none() {
                 res.notes.push("park-handler-did-not-finish".into());
             }
+            // freeze it: the connection is over; a handler that wakes later than the watchdog was not woken
+            res.park = Some(verdict.unwrap_or(false));
         }
         if let Some(ct) = conn_task {
             // embedder-owned task: its completion is a hard synchronisation point
@@ -795,6 +863,12 @@ impl Group {
             }
         }
         if self.sh.registry.is_some() {
+            // the registry's own remove may be the LAST disconnect hook (registered after every user callback):
+            // wait for the eviction as an event
+            let t0 = Instant::now();
+            while !self.sh.registry_gone(id) && t0.elapsed() < WD {
+                tokio::time::sleep(Duration::from_millis(1)).await;
+            }
             res.after = if self.sh.registry_gone(id) { "a".into() } else { "p".into() };
         }
         Ok(())
@@ -912,12 +986,17 @@ fn oracles(cfg: &GroupCfg, scen: &Scen, trace: &[String], res: &ConnResult, inl:
         if item.starts_with('c') {
             *ccount.entry(u).or_default() += 1;
             last_c = Some(pos);
-            if parts.get(1) == Some(&"a") {
-                out.push(("lifecycle.registry.absent_while_connected".into(), format!("inside connect callback {u} the registry does not resolve the peer / its alias; trace {trace:?}")));
+            if parts.get(1) == Some(&"a") && u >= cfg.reg_c() {
+                out.push(("lifecycle.registry.absent_while_connected".into(), format!("inside connect callback {u} (registered after with_peer_registry) the registry does not resolve the peer / its alias; trace {trace:?}")));
             }
         } else {
             *dcount.entry(u).or_default() += 1;
             first_d.get_or_insert(pos);
+            // (only if the registry's insert ran at all: a connect-callback panic before it leaves nothing to evict)
+            let inserted = !(scen.cause == "cpanic" && scen.at.is_some_and(|a| a < cfg.reg_c()));
+            if parts.get(2) == Some(&"a") && u < cfg.reg_d() && inserted {
+                out.push(("lifecycle.registry.evicted_before_earlier_disconnect_callback".into(), format!("disconnect callback {u} was registered before with_peer_registry, yet inside it the peer or its aliases are already gone; trace {trace:?}")));
+            }
             if parts.get(1) == Some(&"0") {
                 out.push(("lifecycle.order.hook_before_cancel".into(), format!("disconnect callback {u} ran while a parked handler still read is_cancelled() == false; trace {trace:?}")));
             }
@@ -949,7 +1028,9 @@ fn oracles(cfg: &GroupCfg, scen: &Scen, trace: &[String], res: &ConnResult, inl:
             out.push(("lifecycle.order.connect_after_disconnect".into(), format!("a connect callback ran after a disconnect callback; trace {trace:?}")));
         }
     }
-    if park == Some(false) {
+    if park == Some(false) && scen.phase == "parkedfut" {
+        out.push(("lifecycle.handler.cancelled_future_not_woken".into(), "an off-reader handler waiting on ctx.cancelled() had not been woken 25 s after the last disconnect callback".into()));
+    } else if park == Some(false) {
         out.push(("lifecycle.handler.no_cancel_after_end".into(), "a parked off-reader handler read is_cancelled() == false after the last disconnect callback".into()));
     }
     if inl == Some(false) && cancel_cause(cfg, &scen.cause) {
@@ -1033,7 +1114,7 @@ async fn run_group(cfg: GroupCfg, scens: Vec<Scen>, server_rt: &tokio::runtime::
         for ((sc, res), (rec, line)) in scens.iter().zip(&results).zip(recs.iter().zip(&lines)) {
             let trace = rec.trace.lock().unwrap().clone();
             let inl = *rec.inl.lock().unwrap();
-            let park = *rec.park.lock().unwrap();
+            let park = res.park;
             let obs = if sc.hsfail() {
                 format!("{} hooks={}", sc.idx, trace.len() as u64 + unknown)
             } else {
@@ -1077,7 +1158,7 @@ async fn run_group(cfg: GroupCfg, scens: Vec<Scen>, server_rt: &tokio::runtime::
 // ---------------------------------------------------------------------------------------------
 // generation
 // ---------------------------------------------------------------------------------------------
-const PHASES: [&str; 5] = ["idle", "inline", "parked", "queued", "connecting"];
+const PHASES: [&str; 6] = ["idle", "inline", "parked", "parkedfut", "queued", "connecting"];
 const CAUSES: [&str; 11] = ["close", "drop", "proto", "protog", "malformed", "malformeds", "malformedl", "hpanic", "cpanic", "cancel", "abort"];
 
 fn fill_scen(rng: &mut Rng, cfg: &GroupCfg, idx: String, phase: &str, cause: &str) -> Scen {
@@ -1106,17 +1187,22 @@ fn random_cfg(rng: &mut Rng, g: usize, entry: Entry, mode: char, queued: bool) -
         Entry::Listener | Entry::Drain => true,
         _ => nctx_reg == 0 || !rng.chance(1, 4),
     };
-    GroupCfg {
+    let mut cfg = GroupCfg {
         g,
         entry,
         nconn: rng.range(1, 3) as usize,
         nctx: if hs { nctx_reg } else { 0 },
         nctx_reg,
         ndisc: rng.range(1, 3) as usize,
-        reg: rng.chance(1, 2),
+        reg: false,
+        regpos: 0,
         cap: if queued { 2 } else { 64 },
         mode,
-    }
+    };
+    cfg.reg = rng.chance(1, 2);
+    // half of the registry groups: some user callbacks are registered before `with_peer_registry`
+    cfg.regpos = if cfg.reg && rng.chance(1, 2) { rng.range(1, 3) as usize } else { 0 };
+    cfg
 }
 
 struct Plan {
@@ -1202,6 +1288,9 @@ fn parse_replay(ops: &[String]) -> Vec<AnyPlan> {
                     p.steps.push(step);
                 }
             }
+            Some("burst") if w.len() >= 5 => {
+                plans.push(AnyPlan::Burst(BurstPlan { idx: w[1].into(), entry: Entry::parse(w[2]).expect("entry"), n: w[3].parse().unwrap_or(16), end: w[4].into(), reps: 80 }));
+            }
             Some("hs") if w.len() >= 5 => {
                 let cfg = if w[2] == "-" { String::new() } else { w[2].to_string() };
                 match plans.last_mut() {
@@ -1220,6 +1309,7 @@ fn parse_replay(ops: &[String]) -> Vec<AnyPlan> {
                     cap: w[7].parse().unwrap(),
                     mode: w[8].chars().next().unwrap_or('-'),
                     nctx_reg: w[9].parse().unwrap(),
+                    regpos: w.get(10).and_then(|x| x.parse().ok()).unwrap_or(0),
                 };
                 plans.push(AnyPlan::Life(Plan { cfg, scens: vec![] }));
             }
@@ -1806,10 +1896,196 @@ fn plan_hs() -> Vec<HsPlan> {
         .collect()
 }
 
+// ---------------------------------------------------------------------------------------------
+// bursts (`burst` op lines): n connections entering `handle_connection_with_config` at the same instant on
+// a multi-thread runtime (released through a barrier); every connection must get its own identity
+// ---------------------------------------------------------------------------------------------
+struct BurstPlan {
+    idx: String,
+    entry: Entry,
+    n: usize,
+    end: String,
+    /// a replayed burst is repeated until it fails (the race it provokes is a matter of instructions)
+    reps: usize,
+}
+impl BurstPlan {
+    fn line(&self) -> String {
+        format!("burst {} {} {} {}", self.idx, self.entry.name(), self.n, self.end)
+    }
+}
+
+async fn run_burst(plan: BurstPlan, server_rt: &tokio::runtime::Runtime, out: &Mutex<Out>) {
+    let mut last = (String::new(), Vec::new());
+    for _ in 0..plan.reps.max(1) {
+        last = burst_once(&plan, server_rt).await;
+        if !last.1.is_empty() {
+            break;
+        }
+    }
+    let (obs, fails) = last;
+    let mut o = out.lock().unwrap();
+    let line = plan.line();
+    let mut seen = std::collections::BTreeSet::new();
+    for (sig, detail) in fails {
+        if seen.insert(sig.clone()) {
+            o.oracle_fail(&sig, &format!("[{line}] {detail}"), &[line.clone()]);
+        }
+    }
+    o.count(&format!("burst.{}.{}", plan.entry.name(), plan.n));
+    o.case(&line, &obs, true);
+}
+
+async fn burst_once(plan: &BurstPlan, server_rt: &tokio::runtime::Runtime) -> (String, Vec<(String, String)>) {
+    let reg = PeerRegistry::new();
+    let connects: Arc<Mutex<HashMap<u64, u32>>> = Default::default();
+    let discs: Arc<Mutex<HashMap<u64, u32>>> = Default::default();
+    let total_disc = Arc::new(AtomicU64::new(0));
+    let (c1, d1, td) = (connects.clone(), discs.clone(), total_disc.clone());
+    let router = Router::new().with_json_ctx("/whoami", |ctx: &CallContext, _v: Value| Ok(json!(ctx.peer().map(|p| p.peer_id().0))));
+    let server = WebSocketServer::new(router)
+        .with_peer_registry(reg.clone())
+        .on_peer_connect(move |p: PeerHandle| {
+            *c1.lock().unwrap().entry(p.peer_id().0).or_default() += 1;
+        })
+        .on_peer_disconnect(move |id: PeerId| {
+            *d1.lock().unwrap().entry(id.0).or_default() += 1;
+            td.fetch_add(1, Ordering::SeqCst);
+        });
+    let n = plan.n;
+    let h = server_rt.handle().clone();
+    let mut server_tasks = Vec::new();
+    let mut listener_task = None;
+    let mut clients: Vec<tokio::task::JoinHandle<Result<(Ws, Option<u64>), String>>> = Vec::new();
+    if plan.entry == Entry::Adopt {
+        let shared = server.into_shared();
+        let barrier = Arc::new(tokio::sync::Barrier::new(n));
+        for _ in 0..n {
+            let (cio, sio) = tokio::io::duplex(64 * 1024);
+            let (sh, b) = (shared.clone(), barrier.clone());
+            server_tasks.push(h.spawn(async move {
+                b.wait().await;
+                let ws = sh.adopt_upgraded(sio).await;
+                let _ = sh.serve_connection(ws).await;
+            }));
+            clients.push(tokio::spawn(async move {
+                let b: BoxIo = Box::new(cio);
+                let mut ws: Ws = WebSocketStream::from_raw_socket(b, Role::Client, None).await;
+                let v = rx_call(&mut ws, 1, "/whoami", &json!(null)).await;
+                Ok((ws, v.ok().and_then(|v| v.as_u64())))
+            }));
+        }
+    } else {
+        let l = std::net::TcpListener::bind("127.0.0.1:0").expect("bind");
+        l.set_nonblocking(true).unwrap();
+        let addr = l.local_addr().unwrap();
+        listener_task = Some(h.spawn(async move {
+            let l = tokio::net::TcpListener::from_std(l).unwrap();
+            let _ = server.serve_listener(l, "/repe").await;
+        }));
+        let barrier = Arc::new(tokio::sync::Barrier::new(n));
+        for _ in 0..n {
+            let b = barrier.clone();
+            clients.push(tokio::spawn(async move {
+                let s = tokio::time::timeout(WD, tokio::net::TcpStream::connect(addr)).await.map_err(|_| "tcp-connect-watchdog")?.map_err(|e| e.to_string())?;
+                b.wait().await;
+                let bx: BoxIo = Box::new(s);
+                let (mut ws, _) = tokio::time::timeout(WD, tokio_tungstenite::client_async(format!("ws://{addr}/repe"), bx)).await.map_err(|_| "ws-handshake-watchdog")?.map_err(|e| e.to_string())?;
+                let v = rx_call(&mut ws, 1, "/whoami", &json!(null)).await;
+                Ok((ws, v.ok().and_then(|v| v.as_u64())))
+            }));
+        }
+    }
+    let mut conns: Vec<(Ws, Option<u64>)> = Vec::new();
+    let mut broken = 0usize;
+    for c in clients {
+        match c.await {
+            Ok(Ok(x)) => conns.push(x),
+            _ => broken += 1,
+        }
+    }
+    let mut fails: Vec<(String, String)> = Vec::new();
+    let ids: Vec<u64> = conns.iter().filter_map(|c| c.1).collect();
+    let unanswered = conns.iter().filter(|c| c.1.is_none()).count() + broken;
+    let mut sorted = ids.clone();
+    sorted.sort();
+    let mut dups: Vec<u64> = sorted.windows(2).filter(|w| w[0] == w[1]).map(|w| w[0]).collect();
+    dups.extend(connects.lock().unwrap().iter().filter(|(_, c)| **c > 1).map(|(id, _)| *id));
+    dups.sort();
+    dups.dedup();
+    if !dups.is_empty() {
+        fails.push(("lifecycle.peer_id.duplicate".into(), format!("{} connections accepted at the same instant: peer id(s) {:?} were handed to more than one live connection", n, dups)));
+    }
+    if unanswered > 0 {
+        fails.push(("lifecycle.burst.connection_lost".into(), format!("{unanswered} of {n} concurrently accepted connections died before answering their first request")));
+    }
+    let present = ids.iter().filter(|id| reg.get(PeerId(**id)).map(|h| h.peer_id().0) == Some(**id)).count();
+    if present != ids.len() || reg.len() != n {
+        fails.push(("lifecycle.registry.absent_while_connected".into(), format!("{} live connections, {} of their ids resolve, registry holds {} peers", n, present, reg.len())));
+    }
+    // end them all
+    let mut k = 0;
+    for (mut ws, _) in conns {
+        k += 1;
+        if plan.end == "close" || (plan.end == "mix" && k % 2 == 0) {
+            let _ = ws.send(WsMsg::Close(None)).await;
+        }
+        drop(ws);
+    }
+    let t0 = Instant::now();
+    while (total_disc.load(Ordering::SeqCst) as usize) < n - broken && t0.elapsed() < WD {
+        tokio::time::sleep(Duration::from_millis(1)).await;
+    }
+    for t in server_tasks {
+        let _ = tokio::time::timeout(WD, t).await;
+    }
+    let t1 = Instant::now();
+    while reg.len() > 0 && t1.elapsed() < Duration::from_millis(500) {
+        tokio::time::sleep(Duration::from_millis(1)).await;
+    }
+    tokio::time::sleep(Duration::from_millis(5)).await;
+    if let Some(t) = listener_task {
+        t.abort();
+    }
+    let dmap = discs.lock().unwrap().clone();
+    let once = ids.iter().filter(|id| dmap.get(id).copied() == Some(1)).count();
+    let twice: Vec<u64> = dmap.iter().filter(|(_, c)| **c > 1).map(|(id, _)| *id).collect();
+    if !twice.is_empty() {
+        fails.push(("lifecycle.disconnect.duplicate".into(), format!("disconnect callbacks ran more than once for peer id(s) {:?}", twice)));
+    } else if once != ids.len() {
+        fails.push(("lifecycle.disconnect.missing".into(), format!("{} connections ended, {} ids saw exactly one disconnect callback", ids.len(), once)));
+    }
+    if reg.len() != 0 {
+        fails.push(("lifecycle.registry.present_after_disconnect".into(), format!("all connections are over, the registry still holds {} peers", reg.len())));
+    }
+    let obs = format!(
+        "{} ids={} live={}/{} disc={}x1 after={}",
+        plan.idx,
+        if dups.is_empty() && unanswered == 0 { "distinct" } else { "collide" },
+        present,
+        n,
+        once,
+        if reg.len() == 0 { "empty".to_string() } else { reg.len().to_string() }
+    );
+    (obs, fails)
+}
+
+fn plan_burst(rng: &mut Rng, thorough: bool) -> Vec<BurstPlan> {
+    let mut v = Vec::new();
+    let (na, nl) = if thorough { (400, 40) } else { (60, 8) };
+    for i in 0..na {
+        v.push(BurstPlan { idx: format!("b{i}"), entry: Entry::Adopt, n: *rng.pick(&[16usize, 24, 32]), end: rng.pick(&["drop", "close", "mix"]).to_string(), reps: 1 });
+    }
+    for i in 0..nl {
+        v.push(BurstPlan { idx: format!("bl{i}"), entry: Entry::Listener, n: 32, end: rng.pick(&["drop", "close", "mix"]).to_string(), reps: 1 });
+    }
+    v
+}
+
 enum AnyPlan {
     Life(Plan),
     Rx(RxPlan),
     Hs(HsPlan),
+    Burst(BurstPlan),
 }
 
 fn main() {
@@ -1824,6 +2100,7 @@ fn main() {
             // registry scripts first (cheap), then the lifecycle matrix
             let nrx = if args.thorough() { 600 } else { 60 };
             let mut v: Vec<AnyPlan> = plan_hs().into_iter().map(AnyPlan::Hs).collect();
+            v.extend(plan_burst(&mut rng, args.thorough()).into_iter().map(AnyPlan::Burst));
             v.extend((0..nrx).map(|i| AnyPlan::Rx(plan_rx(&mut rng, 100_000 + i))));
             v.extend(plan(&mut rng, args.thorough()).into_iter().map(AnyPlan::Life));
             v
@@ -1850,6 +2127,7 @@ fn main() {
                 }
                 AnyPlan::Rx(p) => run_rx(p, &server_rt, &out).await,
                 AnyPlan::Hs(p) => run_hs(p, &server_rt, &out).await,
+                AnyPlan::Burst(p) => run_burst(p, &server_rt, &out).await,
             }
             // a failing input has been found and recorded with its replay: no need to wait out the watchdogs
             // of every later group
